@@ -23,14 +23,14 @@ type CfgMeta struct {
 
 // CfgOpts selects which dimensions the configuration generator exercises.
 type CfgOpts struct {
-	Limits      int // permille chance per queue of user/group limits
-	MaxApps     int // permille chance per queue of maxapplications
-	QueueMax    int // permille chance per queue of a max resource
-	Guaranteed  int
-	Preemption  bool
-	Priorities  bool
-	TightMax    bool
-	Dynamic     bool
+	Limits          int // permille chance per queue of user/group limits
+	MaxApps         int // permille chance per queue of maxapplications
+	QueueMax        int // permille chance per queue of a max resource
+	Guaranteed      int
+	Preemption      bool
+	Priorities      bool
+	TightMax        bool
+	Dynamic         bool
 	QuotaPreemption bool
 }
 
@@ -330,7 +330,6 @@ func genConfigOnce(r *Rng, o CfgOpts, users, groups []string) *CfgMeta {
 	m.Conf = &configs.SchedulerConfig{Partitions: []configs.PartitionConfig{part}}
 	return m
 }
-
 
 // milliVcore rewrites every vcore quantity of the configuration as milli cores ("4" -> "4m"): the SI messages of the
 // harness use small raw numbers, an unsuffixed vcore value in the configuration would be a thousand times larger and
